@@ -280,6 +280,21 @@ def judge(schema, res):
             return ("request_on_invalid_schema", f"data={result.data!r} errors={got} but schema errors {messages}")
         if [e["message"] for e in formatted.get("errors", [])] != messages:
             return ("request_on_invalid_schema_formatted", repr(formatted))
+        # whatever the request looks like (unparsable, over the token limit, invalid, unknown operation): an invalid schema answers
+        # with its own errors
+        from graphql import graphql_sync as gs
+
+        for label, kw in (("syntax_error", {"source": "{"}), ("empty", {"source": ""}), ("invalid_document", {"source": "{ nope { x } }"}),
+                          ("unknown_operation", {"source": "{ __typename }", "operation_name": "Nope"}),
+                          ("bad_variables", {"source": "query ($v: Int!) { __typename }", "variable_values": {"v": "x"}})):
+            res.executions += 1
+            try:
+                r2 = gs(schema, **kw)
+            except Exception as e:  # noqa: BLE001
+                return (f"graphql_sync_raises:{type(e).__name__}@{_where(e)}", f"request {label}: {type(e).__name__}: {e}")
+            got2 = [e.message for e in r2.errors or []]
+            if r2.data is not None or got2 != messages:
+                return (f"request_on_invalid_schema:{label}", f"request {label}: data={r2.data!r} errors={got2} but schema errors {messages}")
     else:
         want = {"__typename": schema.query_type.name}
         if result.errors or result.data != want:
